@@ -348,7 +348,8 @@ Definition tree_step_core (s : tstate) (o : top) (r : tres) : verdict * tstate :
         | WErr e => (expect_err r e 152, s)
         | WDir dd =>
           match lookup_in s sd sfinal with
-          | LAmbiguous | LDot | LDotDot => (VSkip, s)
+          | LAmbiguous => (VSkip, s)
+          | LDot | LDotDot => (expect_err r EInvalidInput 159, s)
           | LNone => (expect_err r ENotFound 153, s)
           | LNode n =>
             if has_live_handle s (t_id n) then (VSkip, taint s) else
